@@ -1,5 +1,6 @@
 """C08 - every lane of n-dimensional data is interpolated independently."""
 from .common import *
+from ..absint import Diverge
 from ..tables import CROSS_LANE
 from ..kernels import *
 from . import spline as S
@@ -32,6 +33,14 @@ def array_dim(ty):
             start = j + 1
         j += 1
     return parts[-1].strip() if len(parts) >= 2 else None
+
+
+def _lanewise(o):
+    """a kernel run is fine for C08 unless it stopped at an ARRAY operation outside the lane-wise surface
+    (scalar-level problems - an unknown scalar function, an undecided scalar comparison - are not lane problems)"""
+    if o.kind in ('ok', 'err'):
+        return True
+    return getattr(o.exc, 'tag', 'other') != 'array-op' and not isinstance(o.exc, Diverge)
 
 
 def reachable(lib, roots):
@@ -114,16 +123,16 @@ def run(chk):
         for rel in ('below', 'first', 'inside', 'last', 'above'):
             o = run_linear(lib, ext, rel)
             n_eval += 1
-            chk.ob('R8.3', "Linear (ext=%s, q %s) evaluates lane-wise" % (ext, rel), o.kind in ('ok', 'err'), o.exc.where if o.exc else '', 'lanewise-linear-%s-%s' % (ext, rel), str(o.exc))
+            chk.ob('R8.3', "Linear (ext=%s, q %s) evaluates lane-wise" % (ext, rel), _lanewise(o), o.exc.where if o.exc else '', 'lanewise-linear-%s-%s' % (ext, rel), str(o.exc))
     for ext in ('Yes', 'Periodic'):
         for rel in ('below', 'inside', 'above'):
             o = run_spline(lib, ext, rel)
             n_eval += 1
-            chk.ob('R8.3', "CubicSpline evaluation (%s, q %s) evaluates lane-wise" % (ext, rel), o.kind in ('ok', 'err'), o.exc.where if o.exc else '', 'lanewise-spline-%s-%s' % (ext, rel), str(o.exc))
+            chk.ob('R8.3', "CubicSpline evaluation (%s, q %s) evaluates lane-wise" % (ext, rel), _lanewise(o), o.exc.where if o.exc else '', 'lanewise-spline-%s-%s' % (ext, rel), str(o.exc))
     for ext in (True,):
         o = run_bilinear(lib, ext, 'inside', 'above')
         n_eval += 1
-        chk.ob('R8.3', "Bilinear (ext=%s) evaluates lane-wise" % ext, o.kind in ('ok', 'err'), o.exc.where if o.exc else '', 'lanewise-bilinear-%s' % ext, str(o.exc))
+        chk.ob('R8.3', "Bilinear (ext=%s) evaluates lane-wise" % ext, _lanewise(o), o.exc.where if o.exc else '', 'lanewise-bilinear-%s' % ext, str(o.exc))
     for n in (None, 3):
         for lk in S.KINDS:
             for rk in S.KINDS:
